@@ -200,22 +200,24 @@ def model_check(spec_dir, module, cfg, work, tag, actions=(), workers=16, timeou
 
 
 def generate(spec_dir, module, cfg, work, tag, marker="@@B", workers=8, simulate=None, timeout=1800, env=None,
-             heap="8g"):
+             heap="8g", extra=None):
     """P2: run TLC and collect the JSON lines it prints (Print with marker). Returns list of objects.
     The spec prints behaviours from an invariant/constraint; TLC must end normally."""
     rc, out = tlc(spec_dir, module, cfg, work, tag, workers=workers, simulate=simulate, timeout=timeout, env=env,
-                  heap=heap, deadlock_off=True)
+                  heap=heap, deadlock_off=True, extra=extra)
     if rc not in (0,) and not (simulate and rc == 124):
         raise Broken("TLC generation failed on %s/%s (exit %d):\n%s" % (module, cfg, rc, out[-3000:]))
     res = []
     seen = set()
+    pat = re.compile(r'<<"' + re.escape(marker) + r'", (".*")>>\s*$')
     for ln in out.splitlines():
-        i = ln.find(marker)
-        if i < 0:
+        m = pat.search(ln)
+        if not m:
             continue
-        s = ln[i + len(marker):].strip()
-        if s.startswith('"') and s.endswith('"'):
-            s = json.loads(s)
+        try:
+            s = json.loads(m.group(1))
+        except Exception:
+            continue
         if s in seen:
             continue
         seen.add(s)
@@ -235,13 +237,58 @@ def validate_trace(spec_dir, module, cfg, trace_file, work, tag, timeout=1800, h
     if dfs:
         env["JAVA_TOOL_OPTIONS"] = "-Dtlc2.tool.queue.IStateQueue=StateDeque"
     rc, out = tlc(spec_dir, module, cfg, work, tag, workers=1, env=env, timeout=timeout, heap=heap, deadlock_off=True)
-    m = re.findall(r"@@MATCHED (\d+)", out)
+    m = re.findall(r'@@MATCHED", (\d+)', out)
     matched = max([int(x) for x in m]) if m else None
     if rc == 0:
         return dict(accepted=True, matched=n, total=n, out=out)
     if rc in (10, 12, 13):  # postcondition false / assumption / invariant
         return dict(accepted=False, matched=matched, total=n, out=out)
     raise Broken("TLC trace validation failed on %s (exit %d):\n%s" % (module, rc, out[-3000:]))
+
+
+def validate_executions(spec_dir, module, cfg, projs, work, max_rejects=6, tag="p3", env_extra=None):
+    """P3 over many executions (each a list of abstract events starting with a Reset event).
+    Returns (accepted_count, events_accepted, rejects) with rejects = [(index, first_unmatched_event_index)],
+    every rejection re-validated alone (repeat before reporting)."""
+    accepted = 0
+    nevents = 0
+    rejects = []
+    pending = list(range(len(projs)))
+    rounds = 0
+    while pending and len(rejects) < max_rejects:
+        rounds += 1
+        tf = work.path("%s-trace%d.ndjson" % (tag, rounds))
+        index = []
+        with open(tf, "w") as fh:
+            for i in pending:
+                for p in projs[i]:
+                    fh.write(json.dumps(p) + "\n")
+                    index.append(i)
+        r = validate_trace(spec_dir, module, cfg, tf, work, "%s-%d" % (tag, rounds))
+        if r["accepted"]:
+            accepted += len(pending)
+            nevents += len(index)
+            pending = []
+            break
+        m = r["matched"] or 1
+        badi = index[min(m - 1, len(index) - 1)]
+        pos = pending.index(badi)
+        accepted += pos
+        nevents += sum(len(projs[i]) for i in pending[:pos])
+        tf1 = work.path("%s-single.ndjson" % tag)
+        with open(tf1, "w") as fh:
+            for p in projs[badi]:
+                fh.write(json.dumps(p) + "\n")
+        r1 = validate_trace(spec_dir, module, cfg, tf1, work, tag + "-s")
+        if not r1["accepted"]:
+            rejects.append((badi, (r1["matched"] or 1) - 1))
+        else:
+            accepted += 1
+            nevents += len(projs[badi])
+        pending = pending[pos + 1:]
+    if pending:
+        print("NOTE %d executions not validated (stopped after %d rejections)" % (len(pending), len(rejects)))
+    return accepted, nevents, rejects
 
 
 # ------------------------------------------------------------------------------------------
